@@ -74,8 +74,11 @@ func (t *ptxn) SetHandler(p string, src keyvalue.FileRecord, c blob.Blob, h keyv
 	t.results = append(t.results, res)
 	return op
 }
-func (t *ptxn) Commit(ctx context.Context) ([]keyvalue.OpResult, error) { t.release(); return t.results, nil }
-func (t *ptxn) Abort() error                                          { t.release(); return nil }
+func (t *ptxn) Commit(ctx context.Context) ([]keyvalue.OpResult, error) {
+	t.release()
+	return t.results, nil
+}
+func (t *ptxn) Abort() error { t.release(); return nil }
 
 // storeSnapshot reads the store's own contents without going through the FS (no store calls counted).
 func storeSnapshot(s *plainStore) []SnapEntry {
